@@ -223,7 +223,9 @@ Definition valuation_posting (st : bstate) (desc acc : str) : bool :=
 Definition check_posting (st : bstate) (date : Z) (desc : str) (x : str * dec * str) : list violation :=
   let a := account_of x in
   if mem_dated a date (st_open st) then
-    if mem a (st_closed st) then [mkViol k_use_after_close (a ++ s_reopened) false] else []
+    (* an account that was closed and opened again is in force again: knut accepts re-opening
+       (C04), and the property only forbids use after a close that no later open undoes *)
+    []
   else if valuation_posting st desc a then
     [mkViol (if mem a (st_closed st) then k_closed_val else k_unopened_val) a true]
   else if mem a (st_closed st) then [mkViol k_use_after_close a false]
